@@ -42,6 +42,9 @@ def obligations(tier):
         CH("deepcopy_shares_nothing", H, "deepcopy_independent", t, mode="E1s", functions=F[1:3], bounds="5 container-rich objects x (deepcopy, new_version)"),
         CH("marking_operations_leave_input", H, "marking_ops_leave_input", t, mode="E1s", functions=F[2:] + ["stix2.markings.utils.expand_markings",
            "stix2.markings.utils.compress_markings", "stix2.markings.granular_markings.clear_markings", "stix2.markings.granular_markings.set_markings"],
-           bounds="5 granular-marking layouts x 12 marking operations x 4 selector lists x dict / library object; snapshot, container identity, mutation of the result"),
+           bounds="5 granular-marking layouts x 16 marking operations (incl. inherited queries for markings the granular level does not satisfy) x 4 selector lists x dict / library object; snapshot, container identity, mutation of the result"),
+        CH("extensions_argument_unchanged", H, "extensions_argument", t, mode="E1s", functions=F[2:] + ["stix2.properties.ExtensionsProperty.clean", "stix2.custom._custom_object_builder"],
+           bounds="5 shapes of a caller's extensions dictionary (empty, instances only, dictionaries, mixed, empty instance) x 4 users (custom object / observable declared "
+                  "with extension_name, new_version, File) x once/twice: keys, value identities and content unchanged, an object built earlier from it unchanged"),
         CH("arguments_unchanged", H, "arguments_unchanged", t, mode="E1s", functions=F[2:], bounds="16 operations x (called once, called twice on the same arguments)"),
     ]
